@@ -11,6 +11,16 @@ PY = "/venv/bin/python"
 
 # property -> (technique, level text, level note, design ref)
 CLAIMED = {
+    "C16": ("TLA+ state machine of attribute routing (spec/AttrRouting.tla: attrs dictionary, instance dictionary, dimension labels; actions "
+            "set/get/del/direct-write over five name classes; action properties NeverEnters / Unreachable / PublicRoundTrip / DimIsLabels) "
+            "model-checked by TLC, every edge replayed on DimArray, Dataset and Axis; propagation table (spec/MC_C16.tla) executed per operation class",
+            "TLC checks the four action properties on every transition of the machine to depth 3 (thorough 4) and emits every edge with a shortest "
+            "path; each path is replayed on a real DimArray, Dataset and Axis comparing results, exception class, the attrs dictionary, the instance "
+            "dictionary and the axis labels after every step. 58 operation classes (indexing, reductions, transforms, reshaping, reindexing, sorting, "
+            "interpolation vs arithmetic incl. unary and reflected, comparisons, stack, concatenate) are run on arrays with array-level and axis-level "
+            "metadata and compared with the table; C01-C12/C17-C18 replays compare metadata as well.",
+            "Trusted: TLC, NumPy. Deleting a dimension-named attrs entry through attribute syntax is left open.",
+            "5 (C16)"),
     "C13": ("TLA+ state machine of the Dataset as a heap of Axis objects with identity (spec/DatasetHeap.tla, 11 actions, invariants Sharing / "
             "UniqueNames / NoLeak / DimsExact / VarsWellFormed, action property RejectUnchanged) model-checked by TLC; every edge of the bounded state "
             "graph and seeded random behaviours replayed on a real Dataset; recorded real executions validated against spec/TraceDataset.tla",
